@@ -511,6 +511,9 @@ func (s *State) evalList(op prog.Op) Outcome {
 				st, en := op.I, op.J
 				if st < 0 {
 					st += n
+					if st < 0 {
+						st = 0
+					}
 				}
 				if en < 0 {
 					en += n
@@ -518,7 +521,7 @@ func (s *State) evalList(op prog.Op) Outcome {
 				if en >= n {
 					en = n - 1
 				}
-				if st < 0 || st > en {
+				if st > en {
 					return
 				}
 				setList(t, op.B, op.Key, append([]string(nil), cur[st:en+1]...))
@@ -1020,9 +1023,9 @@ func (t *Tx) Step(op prog.Op, now int64, got prog.Res, writable bool) error {
 	}
 	var o Outcome
 	if !writable && !prog.IsRead(op.K) {
-		// mutating call in a read-only transaction: must fail, no effect.
-		// (SMove* are judged like this too: a read-only transaction may not change state.)
-		o = errOnly()
+		// mutating call in a read-only transaction: whatever it returns, it
+		// has no effect (the following observations check that).
+		o = Outcome{Any: true, ErrOK: true}
 	} else {
 		o = view.Eval(op, now)
 	}
